@@ -123,6 +123,13 @@ JudgeDerived(e) ==
               /\ { x[1] : x \in SeqToSet(L) } = Attackers(b, s, c)
               /\ Len(L) = Cardinality(Attackers(b, s, c))
               /\ \A i \in 1..Len(L) : L[i][2] = b[L[i][1]+1])
+    \* attacked / defended by pieces of the given kinds only
+    \* attacked / defended by pieces of the given kinds only (the attackers of each square are taken from the
+    \* capturer lists of the same event, which the assertion above ties to Chess!Attackers)
+    \cup Chk("c06.attacked-by-kinds", \A i \in 1..Len(e.by) :
+              LET r == e.by[i] K == SeqToSet(r.kinds)
+                  By(c) == { s \in Sq : \E j \in 1..Len(e.caps[c+1][s+1]) : KindOf(e.caps[c+1][s+1][j][2]) \in K }
+              IN SeqToSet(r.attacked) = By(Opp(r.side)) /\ SeqToSet(r.defended) = By(r.side))
     \cup Chk("c06.pins", \A i \in 1..Len(e.pins) :
               LET p == e.pins[i] IN
               { <<x[1], x[2], x[3]>> : x \in SeqToSet(p.res) } = Pins(b, p.side, p.kind) /\ Len(p.res) = Cardinality(Pins(b, p.side, p.kind)))
